@@ -6,12 +6,15 @@ Three ways on the same generated lattice programs and inputs:
   specification   python oracle: Kleene iteration of the one-step consequence operator with joins
 The lattice column types are the shipped ones: scalars / sets (gen/c03_vocab.py part 1, LatEngine/LatVocab.v) and COMPOSITE values -
 Product over arrays and tuples, and Dual / Option / Rc / Box / Reverse around them (c03_vocab.COMPOSITE, LatEngine/LatVocabArr.v, whose
-join_mut is C16's model `jm (denote t)`) - in programs where a single join_mut has to move several components at once.
+join_mut is C16's model `jm (denote t)`) - in programs where a single join_mut has to move several components at once; and the
+LEXICOGRAPHIC tuple lattices of tuple.rs with Dual / Reverse / Option components at every position, nested, under Dual / Option /
+OrdLattice (c03_lex.LEX, gen/c03_lexgen.py, LatEngine/LatVocabLex.v): the lattice code that decides through Ord::cmp.
 """
 import json
 import os
 
 from .. import c03_gen as g
+from .. import c03_lexgen as lg
 from .. import c03_vocab as voc
 from .. import dl, lib, prog
 
@@ -23,6 +26,7 @@ PRELUDE = ("From Coq Require Import List ZArith Bool.\n"
            "From AV Require Import Engine.Core Engine.Eval Engine.Validate.\n"
            "From AV Require Import LatEngine.LatSyntax LatEngine.LatEval LatEngine.LatPlan LatEngine.LatVocab.\n"
            "From AV Require Import LatEngine.LatVocabArr.\n"
+           "From AV Require Import LatEngine.LatVocabLex.\n"
            "Import ListNotations.\nOpen Scope Z_scope.\n")
 
 
@@ -56,6 +60,20 @@ def gen_cases(tier, seed):
             inputs.append(inp)
             styles.append(st)
         cases.append(dict(id="c03_comp_%d" % i, prog=p, inputs=inputs, styles=styles))
+    # lexicographic tuple lattices (std tuples with Dual / Reverse / Option components at every position, nested, under Dual /
+    # Option / OrdLattice: c03_lex.LEX): every type in turn, a key receives several different values that tie in their leading
+    # components or not
+    rng3 = lib.rng_for(seed, PROP + "/lex")
+    tys = list(voc.LEX)
+    m = 3 * len(tys) if tier == "quick" else 30 * len(tys)
+    for i in range(m):
+        p = lg.lex_program(rng3, ty=tys[i % len(tys)])
+        inputs, styles = [], []
+        for _ in range(ninp):
+            inp, st = lg.lex_input(rng3, p)
+            inputs.append(inp)
+            styles.append(st)
+        cases.append(dict(id="c03_lex_%d" % i, prog=p, inputs=inputs, styles=styles))
     return cases
 
 
@@ -127,7 +145,7 @@ def model_exprs(p, dump, inputs):
     relnums = dl.cnats(R(n) for n, _, _ in p["rels"])
     exprs = ["(validate %s %s %s && lat_plan_ok (lv_islat %s) %s %s)" % (arities, rules, plan, lats, arities, plan)]
     for inp in inputs:
-        exprs.append("option_map (fun st => lv_show %s (l_rows st)) (run_plan lv2_interp (lv_islat %s) (lv2_jm %s) lv_shuffle lv_swap %d%%nat %s %s)"
+        exprs.append("option_map (fun st => lv_show %s (l_rows st)) (run_plan lv3_interp (lv_islat %s) (lv3_jm %s) lv_shuffle lv_swap %d%%nat %s %s)"
                      % (relnums, lats, lats, FUEL, plan, g.coq_db(p, inp, R)))
     inv = {v: k for k, v in R.d.items()}
     return exprs, inv
@@ -150,6 +168,18 @@ def run_cases(cases, tag="c03", coq_timeout=60):
         scripts = [[("set", g.rust_input(c["prog"], inp)), ("run",), ("snap",)] for inp in c["inputs"]]
         jobs.append(dict(id=c["id"], text=texts[c["id"]], macro="ascent", rels=c["prog"]["rels"], scripts=scripts))
     impl = prog.build_and_run(tag, jobs)
+    # a generated binary runs the scripts of several programs one after the other, so a run that does not terminate takes every later
+    # one with it: each (program, input) left without a result by a timeout is run again in a binary of its own, and only the runs
+    # that still do not finish there are reported (the oracle converges on every generated input: non-termination is a failing input)
+    iso = [(c, k) for c in cases for k, r_ in enumerate(impl.get(c["id"]) or []) if isinstance(r_, dict) and r_.get("timeout")]
+    if iso:
+        ijobs = [dict(id="%s__i%d" % (c["id"], k), text=texts[c["id"]], macro="ascent", rels=c["prog"]["rels"],
+                      scripts=[[("set", g.rust_input(c["prog"], c["inputs"][k])), ("run",), ("snap",)]]) for c, k in iso]
+        again = prog.build_and_run(tag + "_iso", ijobs, nbins=len(ijobs), run_timeout=20)
+        for (c, k), j in zip(iso, ijobs):
+            if again.get(j["id"]):
+                impl[c["id"]] = list(impl[c["id"]])
+                impl[c["id"]][k] = again[j["id"]][0]
     groups, gids, invs, plan_errors = [], [], {}, {}
     for c in cases:
         d = dumps.get(c["id"])
@@ -175,13 +205,15 @@ def run_cases(cases, tag="c03", coq_timeout=60):
             r["valid"] = v[0]
             r["model"] = [decode_model(x, invs[c["id"]]) for x in v[1:]]
         orc = g.Oracle(c["prog"])
-        r["raised"], r["rounds"], r["multi"] = [], [], []
+        r["raised"], r["rounds"], r["multi"], r["lexkeys"] = [], [], [], []
+        lex_rels = {n for n, ty in g.lat_of(c["prog"]).items() if ty in voc.LEX}
         for inp in c["inputs"]:
             st = orc.run(inp)
             r["spec"].append(None if st is None else g.canon_state(c["prog"], st))
             r["raised"].append(max(orc.raised.values()) if orc.raised else 0)
             r["rounds"].append(orc.rounds)
             r["multi"].append(orc.multi)
+            r["lexkeys"].append(sum(1 for (rel, _k), n in orc.raised.items() if rel in lex_rels and n >= 1))
         out.append(r)
     return out
 
@@ -298,6 +330,7 @@ def tie(tier, seed, replay):
     mism, feats, shapes, styles, distinct = [], {}, {}, {}, set()
     raised_hist, rounds_hist = {}, {}
     multi_runs, multi_joins, multi_by_type = 0, 0, {}
+    lex_runs, lex_keys, lex_by_type = 0, 0, {}
     nskipped = sum(1 for r in results if r["skipped"])
     nontriv = 0
     for r in results:
@@ -322,6 +355,11 @@ def tie(tier, seed, replay):
                 multi_joins += r["multi"][k]
                 for ty in set(lats.values()) & set(voc.COMPOSITE):
                     multi_by_type[ty] = multi_by_type.get(ty, 0) + 1
+            if r["lexkeys"][k]:
+                lex_runs += 1
+                lex_keys += r["lexkeys"][k]
+                for ty in set(lats.values()) & set(voc.LEX):
+                    lex_by_type[ty] = lex_by_type.get(ty, 0) + 1
             spec = r["spec"][k]
             derived = spec is not None and any(len(spec[n]) > len(inp.get(n, [])) or sorted(spec[n]) != sorted(map(tuple, inp.get(n, []))) for n in lats)
             if looping and derived:
@@ -346,14 +384,16 @@ def tie(tier, seed, replay):
         mism += contention["mismatches"]
         cont_ev, cont_di = contention["evaluations"], contention["distinct"]
     return dict(evaluations=sum(len(r["case"]["inputs"]) for r in ok) + cont_ev, distinct_nontrivial=len(distinct) + cont_di,
-                rule="lattice programs (shortest / widest path, reachability sets, constant propagation, random monotone programs over u32-max, Dual<u32>, Option<u32>, bool, (u32,u32), Set<u32>, BoundedSet<2,u32>, ConstPropagation<u32>; arities 1-3; component-wise maxima / lock-step recursion / paths / non-linear merges / random monotone programs over the composite columns Product<[u32;2]>, Product<[u32;3]>, Dual<Product<[u32;2]>>, Option<Product<[u32;2]>>, Product<[Dual<u32>;2]>, Product<(u32,Dual<u32>,u32)>, Product<(u32,Dual<u32>)>, Rc / Box / Reverse<Product<[u32;2]>> with the values of a key arriving in random / rising / falling order) x 3-4 inputs (incl. graphs on which one key is improved up to 12 times over as many iterations, lattice-typed input rows); non-trivial = a lattice relation is dynamic in a looping SCC and the run changes a lattice relation; distinct = distinct (plan summary, input); PLUS the contention family (gen/par_contention.py): 5 fixed ascent_par! programs (max / Dual with a 2-column key under inter-rule parallelism / cheapest path recursive through the lattice / Set and Product partial orders / plain projections and a join) on 10^4-10^5 keys each derived 3-16 times in one iteration, pools of 4-16 threads, 6 rounds per big input (12 thorough) + small inputs under seeded perturbation, oracle = one row per key holding the least upper bound computed by python from the input rows; every completed round counts as one evaluation",
+                rule="lattice programs (shortest / widest path, reachability sets, constant propagation, random monotone programs over u32-max, Dual<u32>, Option<u32>, bool, (u32,u32), Set<u32>, BoundedSet<2,u32>, ConstPropagation<u32>; arities 1-3; component-wise maxima / lock-step recursion / paths / non-linear merges / random monotone programs over the composite columns Product<[u32;2]>, Product<[u32;3]>, Dual<Product<[u32;2]>>, Option<Product<[u32;2]>>, Product<[Dual<u32>;2]>, Product<(u32,Dual<u32>,u32)>, Product<(u32,Dual<u32>)>, Rc / Box / Reverse<Product<[u32;2]>> with the values of a key arriving in random / rising / falling order; best-of / lock-step / cost-then-witness paths / non-linear merges / random monotone programs over the LEXICOGRAPHIC tuple columns (Dual<u32>,u32), (u32,Dual<u32>), (Dual<u32>,Dual<u32>), (u32,Dual<u32>,u32), (Dual<u32>,u32,Dual<u32>), (Reverse<u32>,u32), (Option<u32>,Dual<u32>), Dual<(u32,u32)>, Option<(Dual<u32>,u32)>, ((Dual<u32>,u32),u32), OrdLattice<(Dual<u32>,u32)> with component values from a small domain so that the values of a key tie in their leading components or not, upward-closed tests written with the >= / > operators of the real type) x 3-4 inputs (incl. graphs on which one key is improved up to 12 times over as many iterations, lattice-typed input rows); non-trivial = a lattice relation is dynamic in a looping SCC and the run changes a lattice relation; distinct = distinct (plan summary, input); PLUS the contention family (gen/par_contention.py): 5 fixed ascent_par! programs (max / Dual with a 2-column key under inter-rule parallelism / cheapest path recursive through the lattice / Set and Product partial orders / plain projections and a join) on 10^4-10^5 keys each derived 3-16 times in one iteration, pools of 4-16 threads, 6 rounds per big input (12 thorough) + small inputs under seeded perturbation, oracle = one row per key holding the least upper bound computed by python from the input rows; every completed round counts as one evaluation",
                 samples=sample, distribution=dict(programs=len(ok), shapes=shapes, features=feats, input_styles=styles, recursive_changing_runs=nontriv,
                                                    most_raised_key_times=dict(sorted(raised_hist.items())), naive_rounds=dict(sorted(rounds_hist.items())),
                                                    runs_with_a_join_moving_2plus_components=multi_runs, joins_moving_2plus_components=multi_joins,
-                                                   runs_with_such_a_join_by_composite_type=dict(sorted(multi_by_type.items()))),
+                                                   runs_with_such_a_join_by_composite_type=dict(sorted(multi_by_type.items())),
+                                                   runs_in_which_a_key_of_a_lexicographic_tuple_column_is_raised=lex_runs, such_keys=lex_keys,
+                                                   such_runs_by_lexicographic_type=dict(sorted(lex_by_type.items()))),
                 mismatches=mism,
                 trusted_base=["FRONT hook (ascent_macro/src/verif_hook.rs) printing the MIR plan; gen/c03_gen.py pairing the dumped plan with the source rules (core-form programs: checked by shape) and rendering Rust / Coq; gen/prog.py generated crates",
-                              "gen/c03_vocab.py: the coding of lattice values as integers and the monotone vocabulary, written three times (Rust templates, coq/LatEngine/LatVocab.v + LatVocabArr.v, python); a disagreement between them shows up as a mismatch; join_mut of the composite types is not rewritten in the vocabulary: it is Lattice/LatModel.v `jm (denote t)` (the C16 model) transported to codes",
+                              "gen/c03_vocab.py: the coding of lattice values as integers and the monotone vocabulary, written three times (Rust templates, coq/LatEngine/LatVocab.v + LatVocabArr.v + LatVocabLex.v, python); a disagreement between them shows up as a mismatch; join_mut of the composite and of the lexicographic tuple types is not rewritten in the vocabulary: it is Lattice/LatModel.v `jm (denote t)` (the C16 model) transported to codes",
                               "code generation from MIR to Rust (ascent_codegen.rs) is modelled by hand in LatEngine/LatEval.v and tied by these runs, not verified",
                               "rustc, hashbrown / std collections meet their documented semantics",
                               "contention family: harness/par_contention (fixed ascent_par! programs, a pure driver: binary input rows in, rows of every relation out, nothing checked there); the schedules of the real binary are SAMPLED (a handful of rounds per input), never enumerated: a violation that needs a rarer interleaving than ~1 in 10 rounds of 10^5 keys can be missed; Engine/ParLatLookup.v states what the parallel head update needs from the key-index lookup (the re-check under the key mutex must be reliable), the real DashMap is not modelled"],
